@@ -24,6 +24,7 @@ import (
 	"math/rand"
 	"runtime"
 	"strconv"
+	"strings"
 	"sync"
 	"time"
 )
@@ -107,6 +108,8 @@ type Sched struct {
 	// OnEvent is called under the mutex at every arrival (cancellation at the k-th event etc.); the events it
 	// returns are appended to the log right after e (attributed to the harness).
 	OnEvent func(e Event) []Event
+	// StoreSteps: also gate and log the "ls.*" points (steps of LocalStore.StoreChunk); off for all drivers but c08
+	StoreSteps bool
 
 	Settle    time.Duration
 	Watchdog  time.Duration
@@ -156,6 +159,10 @@ func (s *Sched) kindOf(point string) Kind {
 
 // Hook is the function installed as desync.VerifHook; harness fakes call it directly as well.
 func (s *Sched) Hook(point string, kv ...interface{}) {
+	// hook families a driver did not ask for (the steps inside LocalStore.StoreChunk) are not events of its scenario
+	if !s.StoreSteps && strings.HasPrefix(point, "ls.") {
+		return
+	}
 	id := goid()
 	kind := s.kindOf(point)
 	s.mu.Lock()
